@@ -25,7 +25,7 @@ use tt::tungstenite::protocol::WebSocketConfig;
 
 const T_CASE: Duration = Duration::from_secs(90);
 const T_JOIN: Duration = Duration::from_secs(40);
-const IDLE_CLIENT: Duration = Duration::from_millis(350);
+const IDLE_CLIENT: Duration = Duration::from_millis(2000);
 const IDLE_SERVER: Duration = Duration::from_secs(4);
 const RAW_MAX: usize = 1500;
 
@@ -268,7 +268,7 @@ impl Obs {
 
 // ------------------------------------------------------------------ raw TCP peer
 
-struct Ctl { received: AtomicU64, eof: AtomicBool, resumed: AtomicBool, last_ms: AtomicU64, empty_ms: AtomicU64, idle_limit: u64, closing: AtomicBool, start: Instant }
+struct Ctl { phase: AtomicU64, received: AtomicU64, eof: AtomicBool, resumed: AtomicBool, last_ms: AtomicU64, empty_ms: AtomicU64, idle_limit: u64, closing: AtomicBool, start: Instant }
 impl Ctl {
     /// `idle_limit`: how long the reading peer must have found nothing to read
     /// (counted by the reader itself, in empty reads, so that a starved reader
@@ -276,7 +276,7 @@ impl Ctl {
     /// neither the expected byte count nor the end of the stream was seen.
     /// Short when every write has already returned (clients), long when the
     /// sender may still be computing (servers).
-    fn new(idle_limit: Duration) -> Arc<Ctl> { Arc::new(Ctl { received: AtomicU64::new(0), eof: AtomicBool::new(false), resumed: AtomicBool::new(false), last_ms: AtomicU64::new(0), empty_ms: AtomicU64::new(0), idle_limit: idle_limit.as_millis() as u64, closing: AtomicBool::new(false), start: Instant::now() }) }
+    fn new(idle_limit: Duration) -> Arc<Ctl> { Arc::new(Ctl { phase: AtomicU64::new(0), received: AtomicU64::new(0), eof: AtomicBool::new(false), resumed: AtomicBool::new(false), last_ms: AtomicU64::new(0), empty_ms: AtomicU64::new(0), idle_limit: idle_limit.as_millis() as u64, closing: AtomicBool::new(false), start: Instant::now() }) }
     fn now_ms(&self) -> u64 { self.start.elapsed().as_millis() as u64 }
     fn touch(&self) { self.last_ms.store(self.now_ms(), Ordering::SeqCst); self.empty_ms.store(0, Ordering::SeqCst); }
     fn empty_read(&self, ms: u64) { self.empty_ms.fetch_add(ms, Ordering::SeqCst); }
@@ -319,12 +319,26 @@ fn raw_connect(addr: SocketAddr, rcv: usize) -> std::io::Result<TcpStream> {
     Ok(s)
 }
 
+/// larger receive buffer and window clamp on an established socket
+fn reopen_window(sock: &Socket) {
+    use std::os::fd::AsRawFd;
+    let _ = sock.set_recv_buffer_size(4 << 20);
+    let clamp: libc::c_int = 1 << 20;
+    unsafe { libc::setsockopt(sock.as_raw_fd(), libc::IPPROTO_TCP, libc::TCP_WINDOW_CLAMP, &clamp as *const _ as *const libc::c_void, std::mem::size_of::<libc::c_int>() as libc::socklen_t); }
+}
+
 /// stall, then read everything until end of stream (or reset); answers calls
 /// (notify = 0 frames, found by declared lengths only) with a header-only response
 fn reader_loop(mut s: TcpStream, ctl: Arc<Ctl>, stall: Duration, respond: bool, cap: usize) -> Vec<u8> {
     let _ = s.set_read_timeout(Some(Duration::from_millis(20)));
     let _ = s.set_write_timeout(Some(Duration::from_secs(2)));
+    ctl.phase.store(1, Ordering::SeqCst);
     std::thread::sleep(stall);
+    // the stall is over: reopen the receive window.  With a 4 KiB buffer the
+    // kernel sometimes falls back to persist-timer pacing (a few KiB per 200 ms)
+    // when the machine is loaded, which says nothing about the endpoint.
+    if !stall.is_zero() { reopen_window(&socket2::SockRef::from(&s)); }
+    ctl.phase.store(2, Ordering::SeqCst);
     ctl.touch();
     ctl.resumed.store(true, Ordering::SeqCst);
     let mut data: Vec<u8> = Vec::with_capacity(cap.min(80 << 20));
@@ -332,7 +346,10 @@ fn reader_loop(mut s: TcpStream, ctl: Arc<Ctl>, stall: Duration, respond: bool, 
     let (mut ppos, mut respond) = (0usize, respond);
     loop {
         if ctl.start.elapsed() > T_CASE { break; }
-        match s.read(&mut buf) {
+        ctl.phase.store(3, Ordering::SeqCst);
+        let r = s.read(&mut buf);
+        ctl.phase.store(4, Ordering::SeqCst);
+        match r {
             Ok(0) => { ctl.eof.store(true, Ordering::SeqCst); break; }
             Ok(n) => {
                 data.extend_from_slice(&buf[..n]);
@@ -376,9 +393,15 @@ fn accept_with_deadline(l: &TcpListener) -> std::io::Result<TcpStream> {
     }
 }
 
-fn join_reader(h: std::thread::JoinHandle<Vec<u8>>) -> Result<Vec<u8>, String> {
+fn join_reader(h: std::thread::JoinHandle<Vec<u8>>, ctl: &Ctl) -> Result<Vec<u8>, String> {
     let t0 = Instant::now();
-    while !h.is_finished() { if t0.elapsed() > T_JOIN { return Err("reader-join-timeout".into()); } std::thread::sleep(Duration::from_millis(2)); }
+    while !h.is_finished() {
+        if t0.elapsed() > T_JOIN {
+            return Err(format!("reader-join-timeout[phase:{},received:{},eof:{},resumed:{},empty_ms:{},idle_ms:{},elapsed_ms:{}]", ctl.phase.load(Ordering::SeqCst), ctl.received.load(Ordering::SeqCst),
+                ctl.eof.load(Ordering::SeqCst), ctl.resumed.load(Ordering::SeqCst), ctl.empty_ms.load(Ordering::SeqCst), ctl.idle_for().as_millis(), ctl.now_ms()));
+        }
+        std::thread::sleep(Duration::from_millis(2));
+    }
     h.join().map_err(|_| "reader-panic".to_string())
 }
 
@@ -455,8 +478,9 @@ fn run_client(sp: &Spec) -> Result<Obs, String> {
     let eof = ctl.eof.load(Ordering::SeqCst);
     drop(client);
     ctl.closing.store(true, Ordering::SeqCst);
-    let data = join_reader(reader)?;
+    let data = join_reader(reader, &ctl)?;
     if !ctl.eof.load(Ordering::SeqCst) { diag.push("no-eof-after-drop".into()); }
+    diag.push(format!("ms:{}", ctl.now_ms()));
     res.sort();
     Ok(finish_stream(sp, &intents, &data, res, eof, diag))
 }
@@ -532,7 +556,7 @@ fn run_aclient(sp: &Spec) -> Result<Obs, String> {
     });
     let (mut res, mut diag, eof) = out?;
     ctl.closing.store(true, Ordering::SeqCst);
-    let data = join_reader(reader)?;
+    let data = join_reader(reader, &ctl)?;
     if !ctl.eof.load(Ordering::SeqCst) { diag.push("no-eof-after-drop".into()); }
     res.sort();
     Ok(finish_stream(sp, &intents, &data, res, eof, diag))
@@ -569,9 +593,11 @@ fn finish_ws(intents: &Intents, msgs: &[Vec<u8>], res: Vec<(u32, u32, &'static s
 
 /// raw WebSocket peer loop over any tungstenite stream: stall, then collect
 /// binary messages until the endpoint closes; answers calls when `respond`
-async fn ws_reader<S>(mut ws: S, ctl: Arc<Ctl>, stall: Duration, respond: bool) -> Vec<Vec<u8>>
+async fn ws_reader<S>(mut ws: S, ctl: Arc<Ctl>, stall: Duration, respond: bool, reopen: Option<Socket>) -> Vec<Vec<u8>>
 where S: futures_util::Stream<Item = Result<WsMsg, tt::tungstenite::Error>> + futures_util::Sink<WsMsg> + Unpin {
     tokio::time::sleep(stall).await;
+    // reopen the receive window after the stall (see reader_loop)
+    if let (false, Some(sock)) = (stall.is_zero(), &reopen) { reopen_window(sock); }
     ctl.touch();
     ctl.resumed.store(true, Ordering::SeqCst);
     let mut msgs = vec![];
@@ -614,7 +640,8 @@ fn run_wsclient(sp: &Spec) -> Result<Obs, String> {
         let reader = tokio::spawn(async move {
             let (s, _) = match tokio::time::timeout(Duration::from_secs(10), l.accept()).await { Ok(Ok(x)) => x, _ => return vec![] };
             let _ = s.set_nodelay(true);
-            match tt::accept_async_with_config(s, Some(big_cfg())).await { Ok(ws) => ws_reader(ws, c3, stall, true).await, Err(_) => vec![] }
+            let dup = socket2::SockRef::from(&s).try_clone().ok();
+            match tt::accept_async_with_config(s, Some(big_cfg())).await { Ok(ws) => ws_reader(ws, c3, stall, true, dup).await, Err(_) => vec![] }
         });
         let client = to("connect", WebSocketClient::connect_with_limits(&format!("ws://{addr}/repe"), big_limits())).await?.map_err(|e| format!("connect:{e}"))?;
         let mut handles = vec![];
@@ -800,7 +827,7 @@ fn run_tcp_server(sp: &Spec) -> Result<Obs, String> {
     let eof = ctl.eof.load(Ordering::SeqCst);
     let _ = s.shutdown(std::net::Shutdown::Write);
     ctl.closing.store(true, Ordering::SeqCst);
-    let data = join_reader(reader)?;
+    let data = join_reader(reader, &ctl)?;
     if !ctl.eof.load(Ordering::SeqCst) { diag.push("no-eof-after-close".into()); }
     let mut ord: Vec<(u32, u32)> = order.iter().map(|(t, i)| (*t as u32, *i as u32)).collect();
     ord.push((sp.nw as u32, 0)); ord.push((sp.nw as u32 + 1, 0));
@@ -828,6 +855,7 @@ fn run_wsserver(sp: &Spec) -> Result<Obs, String> {
     *last_peer().lock().unwrap() = None;
     let s = raw_connect(addr, sp.rcv).map_err(|e| format!("connect:{e}"))?;
     s.set_nonblocking(true).map_err(|e| e.to_string())?;
+    let dup = socket2::SockRef::from(&s).try_clone().ok();
     let (sp2, in2, ctl2) = (sp.clone(), intents.clone(), ctl.clone());
     let out: Result<(Vec<(u32, u32, &'static str)>, Vec<String>, bool, Vec<Vec<u8>>, Vec<(u32, u32)>), String> = net::runtime().block_on(async move {
         let sp = sp2; let intents = in2; let ctl = ctl2;
@@ -848,7 +876,7 @@ fn run_wsserver(sp: &Spec) -> Result<Obs, String> {
             fn poll_close(self: std::pin::Pin<&mut Self>, _: &mut std::task::Context<'_>) -> std::task::Poll<Result<(), Self::Error>> { std::task::Poll::Ready(Ok(())) }
         }
         let (c3, stall) = (ctl.clone(), Duration::from_millis(sp.stall));
-        let reader = tokio::spawn(ws_reader(Half(stream), c3, stall, false));
+        let reader = tokio::spawn(ws_reader(Half(stream), c3, stall, false, dup));
         // the peer handle of this connection (set by the connect hook before any traffic)
         let t0 = Instant::now();
         let peer = loop {
@@ -995,7 +1023,7 @@ fn gen_cases(seed: u64, thorough: bool) -> Vec<String> {
                     let n = nframes(ep, kinds[t], if nw >= 16 { rng.range(1, 2) } else { rng.range(1, 3) } as usize);
                     (0..n).map(|_| pick_total(&mut rng, &mut big_left, &mut huge_left, thorough, ws)).collect()
                 }).collect();
-                let rcv = if rng.chance(1, 4) { 4096 } else { 0 };
+                let rcv = if rng.chance(1, 4) { 65536 } else { 0 }; // a slower reader; no stall
                 out.push(case_line(0, ep, "conc", &totals, &kinds, 0, rcv, 0, None, 0, 0, rng.next() & 0xffff_ffff));
             }
         }
